@@ -595,6 +595,13 @@ def rule_maxcount(ctx):
         for e in g:
             ok1 = isinstance(e.value, Num) and isinstance(e.old, Num) and w.P.prove_le0(e.old.lin - e.value.lin, e.facts)
             t = e.value.lin.single_term() if isinstance(e.value, Num) else None
+            if t is not None and t[0] == "max" and isinstance(e.old, Num):
+                # acc = max(acc, <stored count>): the candidate is the operand that is not the old maximum
+                mm = w.P.minmax.get(t)
+                if mm and mm[1] == e.old.lin:
+                    t = mm[2].single_term()
+                elif mm and mm[2] == e.old.lin:
+                    t = mm[1].single_term()
             ok2 = t is not None and t[0] == "cell" and t[1] == cnt
             # on a path where the stored key matched
             ok3 = any(at[1] in e.atoms and e.atoms[at[1]] for b, at, pol, cells, ops in atoms)
